@@ -653,6 +653,12 @@ fn dump_crate<'tcx>(tcx: TyCtxt<'tcx>, name: &str) -> J {
                     if let Ok(v) = tcx.const_eval_poly(did) {
                         const_value_json(tcx, v, t, &mut o);
                     }
+                    // the initialiser expression as a body: lets the rules read structured constants
+                    // (`const TRIP: (Square, Square) = (Square { .. }, Square { .. })`) field by field
+                    let env = TypingEnv::post_analysis(tcx, did);
+                    let body = tcx.mir_for_ctfe(did);
+                    let cx = Cx { tcx, body, env };
+                    bodies.push(cx.body_json(format!("{}::{{init}}", key), "const_init", None, did));
                 }
                 let (file, lo, _) = span_json(tcx, tcx.def_span(did));
                 o.push(("file", J::Str(file)));
@@ -698,9 +704,16 @@ fn dump_crate<'tcx>(tcx: TyCtxt<'tcx>, name: &str) -> J {
                     .fields
                     .iter()
                     .map(|f| {
+                        let fty = tcx.type_of(f.did).instantiate_identity().skip_norm_wip();
+                        // evaluate named array lengths (`[u64; SQUARES]`) when the type is not generic
+                        let fty = if tcx.generics_of(did).count() == 0 {
+                            tcx.try_normalize_erasing_regions(TypingEnv::post_analysis(tcx, did), rustc_middle::ty::Unnormalized::new_wip(fty)).unwrap_or(fty)
+                        } else {
+                            fty
+                        };
                         J::obj(vec![
                             ("name", J::Str(f.name.to_string())),
-                            ("ty", J::Str(ty_str(tcx.type_of(f.did).instantiate_identity().skip_norm_wip()))),
+                            ("ty", J::Str(ty_str(fty))),
                             ("vis", J::Str(format!("{:?}", f.vis))),
                         ])
                     })
